@@ -33,8 +33,8 @@ def main(tier):
             subsets = [s for r in range(0, 4) for s in itertools.combinations(["b", "c", "d"], r)]
             subsets += [("a",), ("a", "c")]
             for locked in subsets:
-                for lt in (("ex", "sh") if (thorough or len(locked) == 1) else ("ex",)):
-                    if not locked and lt == "sh":
+                for lt in (("ex", "sh", "eof", "far") if (thorough or len(locked) == 1) else ("ex",)):
+                    if not locked and lt != "ex":
                         continue
                     for threads in ((1, 4) if thorough else (1,)):
                         cases.append(dops.Scn(op, nolock=nolock, locked=locked, nfiles=4, threads=threads, locktype=lt))
